@@ -268,6 +268,92 @@ func c13Burst(seed int64) (string, string) {
 	return "", ""
 }
 
+// connectOn performs the handshake for id over an already established TCP connection (so that several handshakes can be
+// released at the same instant).
+func (s *c13Srv) connectOn(id int64, nc net.Conn) (int64, *websocket.Conn) {
+	d := websocket.Dialer{HandshakeTimeout: 3 * time.Second, Subprotocols: []string{"ocpp1.6"},
+		NetDial: func(network, addr string) (net.Conn, error) { return nc, nil }}
+	c, _, err := d.Dial(fmt.Sprintf("ws://127.0.0.1:%d/ws/id%d", s.port, id), nil)
+	if err != nil {
+		return 9, nil
+	}
+	_ = c.SetReadDeadline(time.Now().Add(time.Duration(sched.Slow) * 60 * time.Millisecond))
+	_, _, rerr := c.ReadMessage()
+	if ce, ok := rerr.(*websocket.CloseError); ok {
+		_ = c.Close()
+		if ce.Code == websocket.ClosePolicyViolation {
+			return 4, nil
+		}
+		return 8, nil
+	}
+	_ = c.SetReadDeadline(time.Time{})
+	return 0, c
+}
+
+// synchronised burst: 12 handshakes presenting the same id are released at the same instant (their TCP connections are
+// open already), over several rounds with a fresh id each: exactly one is accepted and reported; monitor only
+func c13SyncBurst(rounds int) (string, string) {
+	s := startC13()
+	defer s.srv.Stop()
+	for round := 0; round < rounds; round++ {
+		id := int64(100 + round)
+		const k = 12
+		ncs := make([]net.Conn, 0, k)
+		for i := 0; i < k; i++ {
+			nc, err := net.DialTimeout("tcp", fmt.Sprintf("127.0.0.1:%d", s.port), 2*time.Second)
+			if err != nil {
+				return "C13-burst-handshake", "tcp connect failed: " + err.Error()
+			}
+			ncs = append(ncs, nc)
+		}
+		start := make(chan struct{})
+		codes := make(chan int64, k)
+		conns := make(chan *websocket.Conn, k)
+		var wg sync.WaitGroup
+		for _, nc := range ncs {
+			wg.Add(1)
+			go func(nc net.Conn) {
+				defer wg.Done()
+				<-start
+				code, c := s.connectOn(id, nc)
+				codes <- code
+				if c != nil {
+					conns <- c
+				}
+			}(nc)
+		}
+		close(start)
+		wg.Wait()
+		close(codes)
+		close(conns)
+		accepted := 0
+		for code := range codes {
+			if code == 0 {
+				accepted++
+			} else if code != 4 {
+				return "C13-burst-handshake", fmt.Sprintf("unexpected handshake outcome %d", code)
+			}
+		}
+		s.settle()
+		connected := 0
+		for _, e := range s.take() {
+			if e[0] == 1 && e[1] == id {
+				connected++
+			}
+		}
+		for c := range conns {
+			_ = c.Close()
+		}
+		if accepted != 1 {
+			return "C13-two-live-connections", fmt.Sprintf("round %d: %d of 12 simultaneous handshakes with one id were accepted", round, accepted)
+		}
+		if connected != 1 {
+			return "C13-connected-callback-count", fmt.Sprintf("round %d: %d new-client callbacks for one accepted connection", round, connected)
+		}
+	}
+	return "", ""
+}
+
 func c13Gen(cfg config, emit func(Case)) {
 	rng := rand.New(rand.NewSource(cfg.seed*7 + 13))
 	corpus := [][]int64{
@@ -314,6 +400,15 @@ func c13bGen(cfg config, emit func(Case)) {
 	for i := 0; i < n; i++ {
 		k, d := c13Burst(cfg.seed*1000 + int64(i))
 		emit(Case{Class: "burst", Input: []int64{6}, Obs: []int64{-1, 0, 0, 0, -2}, Comment: fmt.Sprintf("burst %d", i),
+			Check: func([]int64) (string, string) { return k, d }})
+	}
+	m := 2
+	if cfg.thorough {
+		m = 12
+	}
+	for i := 0; i < m; i++ {
+		k, d := c13SyncBurst(20)
+		emit(Case{Class: "syncburst", Input: []int64{6}, Obs: []int64{-1, 0, 0, 0, -2}, Comment: fmt.Sprintf("synchronised burst %d", i),
 			Check: func([]int64) (string, string) { return k, d }})
 	}
 }
